@@ -77,10 +77,10 @@ CFG = {
                   "layers with callees as parameters equal the original layers for good callees: exec1_eq / execX1_eq); kRun - prologue + executed arms + executed bodies with the knot inside, NO model "
                   "function of the dispatch left - is eRun over every history (run_knot_eq_model). hover_after_error: for EVERY set of failing calls (returned errors and the logged ones inside "
                   "focusWidget) the hover notifications delivered so far alternate per widget wherever Run can end, and with no error returned the entered set is the hit list. Focus pairing and "
-                  "commands-once over whole histories WITH failing handlers are stated (focus_pairs_err_full, commands_once_err_full), not proved; raw_statements_fail_with_errors shows the literal forms "
-                  "are false there. Oracles (drivers): previous state only from the implementation's reports / op inputs (audited; the mupd pointer position fixed), and a FocusOut/FocusIn pair delivered "
+                  "commands-once over whole histories WITH failing handlers are proved too (focus_pairs_err: the failed FocusOut calls dropped; commands_once_err: only the answers of non-failing calls are owed); "
+                  "raw_statements_fail_with_errors shows the literal forms are false there. Oracles (drivers): previous state only from the implementation's reports / op inputs (audited; the mupd pointer position fixed), and a FocusOut/FocusIn pair delivered "
                   "to one widget is rejected (a focus command for the focused widget must deliver nothing).",
-    "level_note": "Proved: 120 theorems (Props/C15 31, C15Err 9, C15Gen 14, C15Body 48, witnesses 18 showing the pre-fix code violating the statements, the fixed code meeting them, and F115c). Validated by "
+    "level_note": "Proved: 122 theorems (Props/C15 31, C15Err 11, C15Gen 14, C15Body 48, witnesses 18 showing the pre-fix code violating the statements, the fixed code meeting them, and F115c). Validated by "
                   "correspondence only: that the model (incl. the error plumbing) equals vxfw.go (0 mismatches expected on ~38k quick / ~500k thorough op "
                   "lines, both streams), Go's sort.Slice stability for <= 12 children, uint16 coordinate arithmetic (proved equal to integer "
                   "arithmetic for sizes < 65536, hit_list_is_under; since round 4 the uint16 subtractions of hitTest are executed from the body: hit_test_body_eq_model). Modelled not verified: stack overflow on unbounded refocus recursion (fuel; Witness.F115c proves the budget runs out for every budget for ping-pong handlers; "
